@@ -15,6 +15,7 @@ open Pcore.LoaderConc Pcore.Lockset Pcore.LazyCache Pcore.Instantiate
 #print axioms C13_cfg_of_table
 #print axioms C13_lazy_caches
 #print axioms C13_publish_order_fails
+#print axioms C13_publish_ok
 #print axioms C13_cache_half_built
 #print axioms C13_lockset_norace
 #print axioms C13_lockset_ok
